@@ -37,6 +37,7 @@ type treeCtx struct {
 	ctxT    sdk.Context
 	prunedCache map[string]map[string][]string
 	hasRewards  bool
+	hasToken    bool
 	callSites   []*Node
 }
 
@@ -70,6 +71,7 @@ func runC09() {
 	for t := -1; t < ntrees; t++ {
 		g := NewGen(r, w, thorough)
 		g.rewards = t%8 == 3 // one tree in eight may trigger finding C09-1
+		g.tokenCB = t%4 == 1 // one tree in four may call the hostile token through crossChain
 		var root *Node
 		if t < 0 {
 			root = witnessC091(g) // the minimal replay of finding C09-1, every run
@@ -92,6 +94,14 @@ func runC09() {
 		wfTree := !(tc.hasRewards && rewardsWrite)
 		items = append(items, coqCase(coqList(b), coqEnd(e), full.obs, wfTree))
 		tc.judge(rep, full, ample, desc, fail)
+		for _, m := range tc.markers {
+			rep.Count("marker:" + m.Kind.String())
+			for _, id := range full.obs.Natives {
+				if id == m.ID {
+					rep.Count("marker_survived_at_ample_gas:" + m.Kind.String())
+				}
+			}
+		}
 		rep.Sample(map[string]interface{}{"tree": desc, "gas": ample, "observed": full.obs})
 		cuts := map[string]bool{}
 		// gas ladder
@@ -170,8 +180,17 @@ func prepare(w *World, root *Node) *treeCtx {
 		tc.addrIdx[frameAddr(f.Addr)] = f.Addr
 	}
 	for _, m := range tc.markers {
+		if m.Kind == MkTokenCB {
+			tc.markers = append(tc.markers, m.Inner)
+			w.c.InstallCode(tc.ctxT, w.tok.ERC20, hostileToken(m.Inner))
+			tc.hasToken = true
+		}
+	}
+	for _, m := range tc.markers {
 		tc.byInput[string(m.Target.Bytes())+string(m.Data)] = m
-		seenCtx[m.Ctx] = true
+		if m.Ctx >= 0 {
+			seenCtx[m.Ctx] = true
+		}
 		if m.Kind == MkRewards {
 			tc.hasRewards = true
 		}
@@ -223,7 +242,7 @@ func prepare(w *World, root *Node) *treeCtx {
 // identity of the EVM log the precompile emits for it.
 func (tc *treeCtx) calibrate() error {
 	for _, m := range tc.markers {
-		if !m.Kind.designedOK() || m.Kind == MkRewards {
+		if !m.Kind.designedOK() || m.Kind == MkRewards || m.Kind == MkInnerApprove {
 			continue
 		}
 		ctx, _ := tc.ctxT.CacheContext()
@@ -240,8 +259,20 @@ func (tc *treeCtx) calibrate() error {
 				for _, t := range l.Topics {
 					topics = append(topics, common.HexToHash(t))
 				}
-				tc.logIDs[logKey(m.Target, topics, l.Data)] = logBase + m.ID
+				if m.Kind == MkBridgeCall {
+					// the event carries the bridge-call nonce, which depends on what ran before: identified by its topics
+					// (sender, refund, to — `to` is unique per marker)
+					tc.logIDs[logKey(m.Target, topics, nil)] = logBase + m.ID
+				} else {
+					tc.logIDs[logKey(m.Target, topics, l.Data)] = logBase + m.ID
+				}
 				n++
+			} else if m.Kind == MkTokenCB && common.HexToAddress(l.Address) == m.Inner.Target {
+				var topics []common.Hash
+				for _, t := range l.Topics {
+					topics = append(topics, common.HexToHash(t))
+				}
+				tc.logIDs[logKey(m.Inner.Target, topics, l.Data)] = logBase + m.Inner.ID
 			}
 		}
 		if n != 1 {
@@ -280,6 +311,8 @@ func (tc *treeCtx) runOn(base sdk.Context, gas uint64) runRes {
 		if _, isFrame := tc.addrIdx[addr]; isFrame && len(topics) == 0 && len(l.Data) == 32 {
 			id = int(common.BytesToHash(l.Data).Big().Int64())
 		} else if v, ok := tc.logIDs[logKey(addr, topics, l.Data)]; ok {
+			id = v
+		} else if v, ok := tc.logIDs[logKey(addr, topics, nil)]; ok {
 			id = v
 		}
 		o.Logs = append(o.Logs, id)
@@ -323,6 +356,13 @@ func (tc *treeCtx) expectFromTrace(root *TFrame) expect {
 				}
 				return
 			}
+			if m.Kind == MkTokenCB { // the calls its closure made through the EVM come first
+				for _, o := range f.Ops {
+					if o.Kind == "frame" {
+						walk(o.Frame, kept)
+					}
+				}
+			}
 			if f.Typ == vm.CALL {
 				ex.started = true
 			}
@@ -332,7 +372,7 @@ func (tc *treeCtx) expectFromTrace(root *TFrame) expect {
 					ex.natives = append(ex.natives, transferBase+m.ID)
 				}
 				ex.logs = append(ex.logs, logBase+m.ID)
-				if m.Kind != MkApprove {
+				if m.Kind != MkApprove && m.Kind != MkInnerApprove {
 					ex.events[m.ID] = true
 				}
 			}
